@@ -36,17 +36,25 @@ def engines_in(prog, leaves) -> set:
 
 
 def prune_order_loss(rel, exc) -> bool:
-    """Mechanism of the known finding KF-prune-order-loss: processing raised the documented
-    row-order-loss error although construction had accepted the tree, and the tree contains a chain
-    with a statically empty operand (which the Processor prunes, so that a sort that had been
-    nested under the compound select comes back to the outermost query level)."""
+    """Mechanism of the known finding KF-reapply-order-loss: processing raised the documented
+    row-order-loss error although construction had accepted the tree, and the tree contains a
+    sort without slice that construction had (legally) nested in a sub-query below the root -
+    under a calculation / selection / projection of a compound select, or next to a statically
+    empty chain branch.  When the Processor re-applies the operations (pruning empty chain
+    branches, without calculations a later projection had elided) that sort returns to the
+    outermost query level and the following join / chain / materialization is refused."""
     import lsst.daf.relation as R
+    from lsst.daf.relation import sql
 
     from . import interp
 
     if not (isinstance(exc, R.RelationalAlgebraError) and "will not preserve row order" in str(exc)):
         return False
     for n in interp.walk(rel):
+        if n is rel:
+            continue
+        if isinstance(n, sql.Select) and n.has_sort and not n.has_slice:
+            return True
         if isinstance(n, R.BinaryOperationRelation) and isinstance(n.operation, R.Chain) and (n.lhs.max_rows == 0 or n.rhs.max_rows == 0):
             return True
     return False
